@@ -1,5 +1,5 @@
 (** C18 — opening an older database rebuilds derived tables exactly; reopening is a no-op. *)
-From ID Require Import Model.StoreOps Proofs.MigrateFacts.
+From ID Require Import Model.StoreOps Model.Query Proofs.MigrateFacts Proofs.FsPutFacts Proofs.QueryFacts Proofs.RebuildFacts.
 
 (** a rebuilt head table holds per (namespace, author) exactly the greatest timestamp among that
     author's records, for every content of the records table (multi-document, ties, markers) *)
@@ -20,7 +20,60 @@ Proof. exact open_uptodate_noop. Qed.
 Theorem C18_open_idempotent : forall T, open_store (open_store T) = open_store T.
 Proof. exact open_idempotent. Qed.
 
+Theorem C18_reopen_many : forall n T, Nat.iter (S n) open_store T = open_store T.
+Proof. exact open_many. Qed.
+
+(** the key stored with a rebuilt head is the key of one of that author's records at exactly that
+    timestamp *)
+Theorem C18_rebuilt_head_names_a_record : forall T, t_latest T = [] ->
+  forall ns au t k, tbl_get pair_cmp (ns, au) (t_latest (migrate_latest T)) = Some (t, k) ->
+    exists l h, In ((ns, au, k), (t, l, h)) (t_records T).
+Proof. exact migrate_heads_key. Qed.
+
+(** End to end. [wf_records], [wf_index] and [HInv] are the invariants of a store that maintained its
+    derived tables all along (next theorem: they hold after every history). On such a store, deleting
+    the head table, the index or both and opening: same records, same content of every document, the
+    same answer to EVERY query (key-ordered, author-ordered, latest-per-key, any filter, limit, offset,
+    direction), the same head timestamp for every (document, author); a rebuilt head names a record. *)
+Theorem C18_rebuilt_as_maintained : forall EH T l b, wf_records T -> wf_index T -> HInv T ->
+  let T1 := open_store (wipe l b T) in
+  t_records T1 = t_records T /\
+  (forall ns, fs_all ns T1 = fs_all ns T) /\
+  (forall ns q, run_query prefix_succ EH T1 ns q = run_query prefix_succ EH T ns q) /\
+  (forall ns au, head_of T1 ns au = head_of T ns au) /\
+  (t_latest (wipe l b T) = [] -> forall ns au t k, tbl_get pair_cmp (ns, au) (t_latest T1) = Some (t, k) ->
+     exists len h, In ((ns, au, k), (t, len, h)) (t_records T)).
+Proof. exact rebuilt_as_maintained. Qed.
+
+Theorem C18_rebuilt_after_any_history : forall EH hist l b, Forall wf_entry hist ->
+  let T := fs_puts EH empty_tables hist in
+  let T1 := open_store (wipe l b T) in
+  (forall ns, fs_all ns T1 = fs_all ns T) /\
+  (forall ns q, run_query prefix_succ EH T1 ns q = run_query prefix_succ EH T ns q) /\
+  (forall ns au, head_of T1 ns au = head_of T ns au).
+Proof. exact rebuilt_after_any_history. Qed.
+
+(** Two documents, one author in both, a deletion marker, and two entries of one author at the same
+    (greatest) timestamp written greater key first: the rebuilt head carries the same timestamp but
+    the other key -- which of the tied entries a head names is history, not content. *)
+Example C18_rebuild_with_ties :
+  let hist := [mkE 1 5 [98] 10 1 3; mkE 1 5 [97] 10 1 4; mkE 2 5 [97;98] 7 1 3; mkE 2 5 [97] 9 0 77; mkE 1 6 [99] 8 2 3] in
+  let T := fs_puts 77 empty_tables hist in
+  let T1 := open_store (wipe true true T) in
+  Forall wf_entry hist /\
+  t_latest T  = [((1, 5), (10, [97])); ((1, 6), (8, [99])); ((2, 5), (9, [97]))] /\
+  t_latest T1 = [((1, 5), (10, [98])); ((1, 6), (8, [99])); ((2, 5), (9, [97]))] /\
+  fs_all 2 T1 = [mkE 2 5 [97] 9 0 77].
+Proof.
+  split; [apply wf_entryb_ok; vm_compute; reflexivity|]. vm_compute. repeat split.
+Qed.
+
 Print Assumptions C18_migrate_heads_exact.
 Print Assumptions C18_migrate_index_exact.
 Print Assumptions C18_open_uptodate_noop.
 Print Assumptions C18_open_idempotent.
+Print Assumptions C18_reopen_many.
+Print Assumptions C18_rebuilt_head_names_a_record.
+Print Assumptions C18_rebuilt_as_maintained.
+Print Assumptions C18_rebuilt_after_any_history.
+Print Assumptions C18_rebuild_with_ties.
